@@ -1,8 +1,8 @@
 SPECIFICATION Spec
 CONSTANTS
-  Parties <- P3
-  Byz <- B0
+  Parties <- P5
+  Byz <- B12
   Payloads <- Pay2
   ByzDigests <- DAll
   AllowOmit = TRUE
-INVARIANTS Agreement Validity Consistency
+INVARIANTS Agreement Validity Consistency PrintBehaviour
